@@ -12,15 +12,15 @@ SPEC = {'level': 'exploration',
             gen('vh_c61', 'c61_vecdeque', 16000, 300000, min_cases_quick=8000,
                 floors={'ring-wrapped': 0.4, 'realloc-while-wrapped': 0.3, 'copy/move/swap-while-wrapped': 0.25, 'VecDeque<tracked>': 0.3},
                 rule='op sequences on VecDeque<int>/<tracked> vs std::deque; non-trivial = ring wrapped + realloc while wrapped + copy/move/swap while wrapped'),
-            gen('vh_c61', 'c61_bitdeque', 12000, 220000, min_cases_quick=6000,
+            gen('vh_c61', 'c61_bitdeque', 8000, 150000, min_cases_quick=4000,
                 floors={'front-word-boundary-crossed': 0.3, 'middle-insert/erase-multiword': 0.3, 'bitdeque<32768>': 0.05},
                 rule='op sequences on bitdeque<7/64/128/32768> vs std::deque<bool>; non-trivial = front and back word boundaries crossed + interior insert/erase in a multi-word container'),
             gen('vh_c61', 'c61_pool', 12000, 220000, min_cases_quick=6000,
                 floors={'reuse': 0.4, 'extra-chunks': 0.4, 'leftover-donated': 0.3, 'fallback-new': 0.4, 'mode:node-containers': 0.15, 'zero-byte-request': 0.05},
                 rule='Allocate/Deallocate sequences vs interval map + accounting model; node containers with PoolAllocator vs std containers'),
-            gen('vh_c61', 'up_prevector', 6000, 100000, rule='upstream fuzz target prevector, supplementary'),
+            gen('vh_c61', 'up_prevector', 1500, 30000, rule='upstream fuzz target prevector, supplementary'),
             gen('vh_c61', 'up_bitdeque', 6000, 100000, rule='upstream fuzz target bitdeque, supplementary'),
-            gen('vh_c61', 'up_vecdeque', 6000, 100000, rule='upstream fuzz target vecdeque, supplementary'),
+            gen('vh_c61', 'up_vecdeque', 3000, 60000, rule='upstream fuzz target vecdeque, supplementary'),
             gen('vh_c61', 'up_pool_resource', 6000, 100000, rule='upstream fuzz target pool_resource, supplementary')]}
 
 META = {'level_text': 'Stateful generated search: operation sequences (up to 3000 operations, sizes concentrated on the inline capacity / word size / ring capacity / '
